@@ -37,6 +37,8 @@ mixed process_input(mixed s) {
     return 0;
   }
   rec("PI " + me() + " " + s);
+  // one particular line makes process_input() fail (after the record: the line was delivered)
+  if (stringp(s) && strlen(s) > 5 && s[<6..] == "PIBOOM") error("process_input fails on this line\n");
 #ifdef PI_SCRIPT
   run(PI_SCRIPT);
 #endif
